@@ -617,7 +617,10 @@ class TranscriptInterval(AbstractFeatureInterval):
         # handle the edge case where the CDS is full length
         if self.cds.chunk_relative_location == self.chunk_relative_location:
             return EmptyLocation()
-        cds_start_on_transcript = self.cds_pos_to_transcript(0)
+        # positions are counted along the chunk-relative location, which may lack the 5' part of this transcript
+        cds_start_on_transcript = self.chunk_relative_location.parent_to_relative_pos(
+            self.cds.chunk_relative_location.relative_to_parent_pos(0)
+        )
         return self.chunk_relative_location.relative_interval_to_parent_location(
             0, cds_start_on_transcript, Strand.PLUS
         )
@@ -632,7 +635,10 @@ class TranscriptInterval(AbstractFeatureInterval):
         # handle the edge case where the CDS is full length
         if self.cds.chunk_relative_location == self.chunk_relative_location:
             return EmptyLocation()
-        cds_inclusive_end_on_transcript = self.cds_pos_to_transcript(len(self.cds.chunk_relative_location) - 1)
+        # positions are counted along the chunk-relative location, which may lack the 5' part of this transcript
+        cds_inclusive_end_on_transcript = self.chunk_relative_location.parent_to_relative_pos(
+            self.cds.chunk_relative_location.relative_to_parent_pos(len(self.cds.chunk_relative_location) - 1)
+        )
         return self.chunk_relative_location.relative_interval_to_parent_location(
             cds_inclusive_end_on_transcript + 1, len(self._location), Strand.PLUS
         )
